@@ -2,7 +2,7 @@
    eleven commands (send + receiveUntil), over the scanner model and a scripted port.
    Executable definitions only.  The dispatch table and the size function are the GENERATED ones. *)
 From Coq Require Import String.
-Require Import Base.Bytes Model.Frame Model.Packet Model.Split Lib.Bufio Gen.Funcs.
+Require Import Base.Bytes Model.Frame Model.Packet Model.Split Lib.Bufio Spec.LayoutKinds Gen.Funcs Gen.Layouts.
 Open Scope N_scope.
 
 (* ---- identifiers and the generated tables ---- *)
@@ -18,11 +18,16 @@ Fixpoint lookup_z {A} (k : Z) (l : list (Z * A)) : option A :=
 (* Client.MeasurementData(): the slot (field name, Go type) the packet's data type dispatches to *)
 Definition dispatch (p : bytes) : option (string * string) := lookup_z (pkt_dtype p) dispatch_table.
 
-(* the decoders (binary.Read into a fixed-size value) accept exactly when the data is long enough *)
-Definition min_data_size (p : bytes) : N :=
+(* the decoders (binary.Read into a fixed-size value) accept exactly when the data is long enough: the size
+   is that of the GENERATED decoder layout of the Go type the packet dispatches to, at the packet's precision *)
+Definition min_data_size (p : bytes) : option Z :=
   let '(t, c, pr) := f_DataIdentifier_SetUint16 0 0 0 (Z.of_N (be16 (nthb p 0) (nthb p 1))) in
-  Z.to_N (f_DataIdentifier_DataSize t c pr).
-Definition decodable (p : bytes) : bool := (N.to_nat (min_data_size p) <=? length p - 3)%nat.
+  match dispatch p with
+  | Some (_, ty) => option_map layout_size (dec_layout_of ty pr)
+  | None => None
+  end.
+Definition decodable (p : bytes) : bool :=
+  match min_data_size p with Some n => (Z.to_nat n <=? length p - 3)%nat | None => false end.
 
 (* ---- state ---- *)
 Record client := {
